@@ -126,6 +126,14 @@ class CppMachine:
             return v
         if isinstance(obj, tuple) and obj and obj[0] == 'G':
             return self.global_word(obj[1], off, self.wb)
+        if getattr(self, 'junk_locals', False) and isinstance(obj, str) and obj.startswith('loc') and off % self.wb == 0:
+            # never-written bytes of a local object (the upper half of BigInt<64>'s double-word view): an arbitrary word
+            self.njunk = getattr(self, 'njunk', 0) + 1
+            nm = 'JUNK%d' % self.njunk
+            v = self.world.input(nm)
+            self.world.atoms[nm]['hi'] = self.W - 1
+            st.p.mem[key] = v
+            return v
         raise Unsupported('read of uninitialised memory %s+%d' % (obj, off))
 
     def rd(self, st, obj, off, size):
@@ -137,11 +145,18 @@ class CppMachine:
             return self.rd_word(st, obj, off)
         if size == 2 * self.wb:
             return self.rd_word(st, obj, off) + self.rd_word(st, obj, off + self.wb) * self.W
+        if 0 < size < self.wb and (off % self.wb) + size <= self.wb:
+            # bytes of a word (little-endian in every configuration): (word >> 8k) mod 2^(8 size)
+            k = off % self.wb
+            word = self.rd_word(st, obj, off - k)
+            hi = self.split(word, 8 * k)[1] if k else word
+            return self.split(hi, 8 * size)[0]
         raise Unsupported('memory read of %d bytes' % size)
 
     def wr(self, st, obj, off, size, val):
         if obj in getattr(self, 'scalars', ()):
-            st.p.mem[(obj, off)] = self.trunc(val, 8 * size) if size else val
+            # a cell of its own; a possibly negative value is the signed reading of the stored bits and is kept as it is
+            st.p.mem[(obj, off)] = self.trunc(val, 8 * size) if (size and self.rng(val)[0] >= 0) else val
             return
         if size == self.wb:
             lo, hi = self.split(val, self.wordbits)
@@ -152,6 +167,14 @@ class CppMachine:
             lo, hi = self.split(v, self.wordbits)
             st.p.mem[(obj, off)] = lo
             st.p.mem[(obj, off + self.wb)] = hi
+            return
+        if 0 < size < self.wb and (off % self.wb) + size <= self.wb:
+            k = off % self.wb
+            word = self.rd_word(st, obj, off - k)
+            low = self.split(word, 8 * k)[0] if k else ZERO
+            high = self.split(word, 8 * (k + size))[1] if k + size < self.wb else ZERO
+            v = self.trunc(val, 8 * size) if self.rng(val)[0] >= 0 else self.wrap(val, 8 * size)
+            st.p.mem[(obj, off - k)] = low + v * (1 << (8 * k)) + high * (1 << (8 * (k + size)))
             return
         raise Unsupported('memory write of %d bytes' % size)
 
@@ -182,6 +205,53 @@ class CppMachine:
                     r = (L + lo2 * (1 << w), hi2)
                     self.splits[key] = r
                     return r
+        # v == L + 2^bits * H with 0 <= L < 2^bits as written (Euclidean division is unique and v >= 0, so H is the quotient)
+        r = self._split_as_written(v, bits)
+        if r is not None:
+            self.splits[key] = r
+            return r
+        # cuts of one value at several positions share their pieces: the larger cut is the smaller one plus a cut of its quotient
+        cuts = self.__dict__.setdefault('cuts', {})
+        lower = [a for a in cuts.get(v, ()) if a < bits]
+        if lower:
+            a = max(lower)
+            lo_a, hi_a = self.split(v, a)
+            mid, hi_b = self.split(hi_a, bits - a)
+            r = (lo_a + mid * (1 << a), hi_b)
+            self.splits[key] = r
+            cuts.setdefault(v, set()).add(bits)
+            return r
+        higher = [a for a in cuts.get(v, ()) if a > bits]
+        if higher:
+            c = min(higher)
+            lo_c, hi_c = self.split(v, c)
+            l, mid = self.split(lo_c, bits)
+            r = (l, mid + hi_c * (1 << (c - bits)))
+            self.splits[key] = r
+            cuts.setdefault(v, set()).add(bits)
+            return r
+        # ... or after undoing the latest computations (c - (c mod 32) is a multiple of 32 once the remainder is written out)
+        cur = v
+        for _ in range(8):
+            cur, more = self.expand_newest(cur)
+            if not more:
+                break
+            r = self._split_as_written(cur, bits, vtop=hi_)
+            if r is not None:
+                self.splits[key] = r
+                return r
+        cuts.setdefault(v, set()).add(bits)
+        va = v.single_atom()
+        if va is not None and v == ZPoly.var(va) and self.world.atoms[va].get('defn') is None and getattr(self, 'topdown_splits', False):
+            # a free word cut into two pieces: the word is DEFINED as lo + 2^bits * hi with both pieces free, so that every expression
+            # in it is rewritten in terms of the finer pieces (relations between several cuts become syntactic)
+            hn = self.world.new('h', 'hi', 0, hi_ >> bits, weight=1 << bits)
+            ln = self.world.new('p', 'val', 0, (1 << bits) - 1)
+            self.world.atoms[va]['defn'] = ZPoly.var(ln) + ZPoly.var(hn) * (1 << bits)
+            self.world._exp = {}
+            r = (ZPoly.var(ln), ZPoly.var(hn))
+            self.splits[key] = r
+            return r
         # syntactic shortcut: v = a + 2^bits * b with a in range
         hn = self.world.new('h', 'hi', 0, hi_ >> bits, weight=1 << bits)
         ln = self.world.new('l', 'lo', 0, (1 << bits) - 1, defn=v - ZPoly.var(hn) * (1 << bits), partner=hn, weight=1 << bits)
@@ -189,6 +259,33 @@ class CppMachine:
         r = (ZPoly.var(ln), ZPoly.var(hn))
         self.splits[key] = r
         return r
+
+    def _split_as_written(self, v, bits, vtop=None):
+        m_ = 1 << bits
+        Hc = {mm: c // m_ for mm, c in v.t.items() if c % m_ == 0}
+        Lc = {mm: c for mm, c in v.t.items() if c % m_ != 0}
+        if not Hc:
+            return None
+        L = ZPoly(Lc)
+        l0, l1 = self.rng(L)
+        if l0 >= 0 and l1 < m_:
+            H = ZPoly(Hc)
+            h0, h1 = self.rng(H)
+            top = (self.rng(v)[1] if vtop is None else vtop) >> bits
+            if not (h0 >= 0 and h1 <= top):
+                # the quotient is known to lie in [0, max(v) >> bits]; keep that range with it
+                hn = self.world.new('v', 'val', 0, max(top, 0), defn=H)
+                H = ZPoly.var(hn)
+            return (L, H)
+        if l0 >= 0 and l1 < 2 * m_ and getattr(self, 'topdown_splits', False):
+            # the low part overflows its width at most once: one carry moves from it into the quotient
+            kn = self.world.new('k', 'carry', 0, 1, weight=m_)
+            vn = self.world.new('v', 'val', 0, m_ - 1, defn=L - ZPoly.var(kn) * m_)
+            self.world.atoms[kn]['comp'] = vn
+            top = (self.rng(v)[1] if vtop is None else vtop) >> bits
+            hn = self.world.new('v', 'val', 0, max(top, 0), defn=ZPoly(Hc) + ZPoly.var(kn))
+            return (ZPoly.var(vn), ZPoly.var(hn))
+        return None
 
     def trunc(self, v, bits):
         return self.split(v, bits)[0]
@@ -199,6 +296,20 @@ class CppMachine:
         m = 1 << bits
         if lo_ >= 0 and hi_ < m:
             return v
+        if lo_ < 0 or hi_ >= m:
+            # every rewriting of v through the defining identities has the same value: take the best interval among a few of them
+            cur = v
+            for _ in range(8):
+                cur, more = self.expand_newest(cur)
+                if not more:
+                    break
+                l2, h2 = self.rng(cur)
+                lo_, hi_ = max(lo_, l2), min(hi_, h2)
+            if lo_ >= 0 and hi_ < m:
+                if v.is_const() or v.single_atom() is not None:
+                    return v
+                vn = self.world.new('v', 'val', lo_, hi_, defn=v)
+                return ZPoly.var(vn)
         if lo_ >= 0:
             if hi_ < 2 * m:
                 kn = self.world.new('k', 'carry', 0, 1, weight=m)
@@ -457,7 +568,7 @@ class CppMachine:
                     sh = hi.bit_length()
                     if self.rng(y)[0] >= 0 and (x.is_zero() or x.coeff_gcd_divisible(1 << sh)):
                         return x + y
-                raise Unsupported('bitwise or of overlapping values at %s' % loc_str(e))
+                raise Unsupported('bitwise or of overlapping values at %s (%r [%s] | %r [%s])' % (loc_str(e), a, self.rng(a), b, self.rng(b)))
             if op == '&':
                 a, b = self.eval(st, e['lhs']), self.eval(st, e['rhs'])
                 for (x, y) in ((a, b), (b, a)):
@@ -488,6 +599,14 @@ class CppMachine:
             if isinstance(cv, tuple) and cv[0] == 'cmp':
                 raise NeedFork(cv)
             raise Unsupported('conditional expression on run-time data at %s' % loc_str(e))
+        if k == 'un' and e.get('op') in ('++', '--'):
+            l = strip(e['e'])
+            cur = st.fr.vars.get(l.get('id')) if l.get('k') == 'ref' else None
+            if not isinstance(cur, ZPoly):
+                raise Unsupported('increment of a non-local at %s' % loc_str(e))
+            new_ = cur + (1 if e['op'] == '++' else -1)
+            st.fr.vars[l['id']] = new_
+            return cur if e.get('post') else new_
         if k == 'un':
             if e['op'] == '-':
                 return -self.eval(st, e['e'])
@@ -673,6 +792,7 @@ class CppMachine:
 
     def exec1(self, st, s):
         self.cur_ranges = st.p.ranges
+        self.cur_bits = st.p.bits
         self.steps += 1
         if self.steps > 2000000:
             raise Unsupported('too many steps')
@@ -834,6 +954,13 @@ class CppMachine:
             l = strip(e['lhs'])
             op = e.get('op')
             if l.get('k') == 'ref' and l.get('rk') in ('local', 'param') and not isinstance(st.fr.vars.get(l['id']), tuple):
+                if op == '=' and (l.get('t') or {}).get('k') == 'bool' and any(x.get('k') == 'call' for x in walk(e['rhs'])):
+                    # a boolean computed from a call that the machine summarises with several outcomes (compare): one state each
+                    outs = []
+                    for (r, s2) in self.cond(st, e['rhs']):
+                        s2.fr.vars[l['id']] = ZPoly.const(1 if r else 0)
+                        outs.append(s2)
+                    return outs
                 if op == '=':
                     v = self.eval(st, e['rhs'])
                 else:
@@ -872,6 +999,19 @@ class CppMachine:
                     v = self.wrap(cur + r, 8 * size, e)
                 elif op == '-=':
                     v = self.wrap(cur - r, 8 * size, e)
+                elif op == '|=' and r.is_const() and r.const_value() > 0 and (r.const_value() & (r.const_value() - 1)) == 0:
+                    # setting one bit that is known to be clear
+                    b = r.const_value().bit_length() - 1
+                    lo, hi = self.split(cur, b)
+                    if not (self.rng(hi)[1] == 0):
+                        # bit b and above: the bit itself must be zero
+                        bitv, rest = self.split(hi, 1)
+                        if self.rng(bitv)[1] != 0:
+                            # the bit may be set already: it becomes one either way
+                            v = cur + (ONE - bitv) * r.const_value()
+                            self.wr(st, obj, off, size, v)
+                            return [st]
+                    v = cur + r
                 else:
                     raise Unsupported('compound assignment %s at %s' % (op, loc_str(e)))
             if isinstance(v, tuple):
@@ -1043,6 +1183,14 @@ def _call_with_compare_summary(self, st, e):
             objs.append(self.lvalue(st, x))
         nbytes = ((callee['params'][0]['t'].get('pointee') or {}).get('size')) or 0
         n = nbytes // self.wb
+        # the comparison runs over word_length words, which is less than the object size for BigInt<64> with 128-bit double words
+        rec = ((callee['params'][0]['t'].get('pointee') or {}).get('rec'))
+        g = self.prog.globals.get('%s::word_length' % rec) if rec else None
+        if g is not None and 'value' in g:
+            from . import consts as _c
+            wl = _c.as_int(_c.decode(g['value']))
+            if isinstance(wl, int) and 0 < wl <= n:
+                n = wl
         vals = []
         for (o, off) in objs:
             vals.append(sum((self.rd_word(st, o, off + i * self.wb) * (self.W ** i) for i in range(n)), ZPoly()))
@@ -1518,7 +1666,86 @@ def _refine_on_compare(self, outs):
                     bound = c // co
                     lo, hi = s2.p.ranges.get(a, (0, self.W - 1))
                     s2.p.ranges[a] = (lo, min(hi, bound))
-    return outs
+    return _propagate_compare_to_bits(self, outs)
+
+
+def infer_bits(self, st):
+    """carry / borrow bits forced by their own defining identity once other bits are known on the path:  v = T - W k  with
+    max(T) < W gives k = 0 (min(T) >= W gives k = 1);  v = T + W b  with min(T) >= 0 gives b = 0"""
+    changed = True
+    while changed:
+        changed = False
+        sub = {a: ZPoly.const(v) for a, v in st.p.bits.items()}
+        for a, at in self.world.atoms.items():
+            if a in st.p.bits or at['kind'] not in ('carry', 'borrow') or at.get('comp') is None or (at['lo'], at['hi']) != (0, 1):
+                continue
+            d = self.world.atoms[at['comp']].get('defn')
+            if d is None:
+                continue
+            wgt = at.get('weight') or self.W
+            if at['kind'] == 'carry':
+                T = (d + ZPoly.var(a) * wgt).subs(sub)
+                if a in T.atoms():
+                    continue
+                lo, hi = self.rng(T)
+                if hi < wgt:
+                    st.p.bits[a] = 0
+                    changed = True
+                elif lo >= wgt:
+                    st.p.bits[a] = 1
+                    changed = True
+            else:
+                T = (d - ZPoly.var(a) * wgt).subs(sub)
+                if a in T.atoms():
+                    continue
+                lo, hi = self.rng(T)
+                if lo >= 0:
+                    st.p.bits[a] = 0
+                    changed = True
+                elif hi < 0:
+                    st.p.bits[a] = 1
+                    changed = True
+
+
+def _propagate_compare_to_bits(self, outs):
+    """the outcome of comparing two big values whose difference, written out, depends on a few carry / borrow bits decides those bits
+    (sum < addend  <=>  the addition wrapped): assignments that contradict the outcome are dropped, an outcome no assignment admits
+    is infeasible"""
+    keep = []
+    for s2 in outs:
+        r = s2.p.rels[-1]
+        A, B, rel = r[0], r[1], r[2]
+        if getattr(self, 'infer', False):
+            infer_bits(self, s2)
+        D = self.subst(s2, self.world.expand(A - B))
+        ats = [a for a in D.atoms() if self.world.atoms[a]['kind'] in ('carry', 'borrow') and (self.world.atoms[a]['lo'], self.world.atoms[a]['hi']) == (0, 1)
+               and all(e == 1 for m_ in D.t for (b, e) in m_ if b == a)]
+        if len(ats) > 3:
+            keep.append(s2)
+            continue
+        import itertools
+        good = []
+        for vals in itertools.product((0, 1), repeat=len(ats)):
+            Dv = D.subs({a: ZPoly.const(v) for a, v in zip(ats, vals)})
+            lo, hi = self.rng(Dv)
+            possible = set()
+            if lo < 0:
+                possible.add('lt')
+            if hi > 0:
+                possible.add('gt')
+            if lo <= 0 <= hi:
+                possible.add('eq')
+            if possible & rel:
+                good.append(vals)
+        if not good:
+            continue
+        for i, a in enumerate(ats):
+            vs = {g[i] for g in good}
+            if len(vs) == 1:
+                s2.p.bits[a] = vs.pop()
+                s2.p.trace.append('%s=%d by the comparison' % (a, s2.p.bits[a]))
+        keep.append(s2)
+    return keep
 
 
 def _writes_only_first_param(fn):
@@ -1735,3 +1962,178 @@ def rule_glv_decompose(ctx, cfg, prog, rule='R-WORDALG/c++'):
     ctx.ob(rule, not msgs and bool(finals), 'wordalg-c++|decompose_lambda', loc_str(f), 'decompose_lambda: %s' % ' ;; '.join(x[:700] for x in msgs[:2]), cfg=cfg,
            sample=dict(config=cfg, routine='decompose_lambda', paths=len(finals), specification='(+-c0) + lambda (+-c1) == k (mod r), identically in k and in the rounded quotient'))
     return 1
+
+
+# ---------------------------------------------------------------------------------------------- w-NAF recoding step (C06)
+def _find_stmt(node, kind):
+    from .facts import walk as _walk
+    for x in _walk(node):
+        if isinstance(x, dict) and x.get('k') == kind:
+            return x
+    return None
+
+
+def path_normal(m, st, p):
+    if getattr(m, 'infer', False):
+        infer_bits(m, st)
+    return _path_normal(m, st, p)
+
+
+def _path_normal(m, st, p):
+    """p expanded through the defining identities with the path facts applied - including the facts about DEFINED bits: a bit b with
+    b == E(older atoms) that the path fixes to v contributes the linear relation E == v, used to eliminate one atom of E"""
+    sub = {a: ZPoly.const(v) for a, v in st.p.bits.items()}
+    q = m.world.expand(p).subs(sub)
+    for a, v in sorted(st.p.bits.items(), key=lambda kv: -m.world._seq(kv[0])):
+        d = m.world.atoms[a].get('defn')
+        if d is None:
+            continue
+        R = m.world.expand(d).subs(sub) - v          # == 0 on this path
+        piv = None
+        for mono, c in R.t.items():
+            if len(mono) == 1 and mono[0][1] == 1 and c in (1, -1):
+                kind = m.world.atoms[mono[0][0]]['kind']
+                if piv is None or (kind == 'input' and piv[2] != 'input'):
+                    piv = (mono[0][0], c, kind)
+        if piv is None:
+            continue
+        x, c, _ = piv
+        rest = R - ZPoly.var(x) * c              # c*x + rest == 0  =>  x == -rest / c
+        q = q.subs({x: rest * (-c)})
+    return q
+
+
+def rule_wnaf_step(ctx, cfg, prog, rule='R-WORDALG/c++'):
+    """WnafScalar<bits, w>::from_bigint: ONE iteration of the recoding loop from an arbitrary state (c any value, a = one byte) satisfies
+    c_old == u + 2 * c_new exactly (the lost top bit of c + |u| is re-inserted), stores u at wnaf[i], advances i by one, keeps a a
+    single byte, and |u| <= 2^w - 1 (odd or zero) so that u fits the int8 digit and |u| >> 1 indexes the 2^(w-1)-entry tables.  With
+    c_0 == scalar (the statements before the loop are executed) and the exit condition c == 0 this gives, by telescoping,
+    sum wnaf[j] 2^j == scalar for every scalar; the number of iterations (buffer extent) is R-BOUNDS / R-CARRY."""
+    from . import buildmodel as bm
+    wordbits = bm.configs()[cfg]['words']
+    import re
+    n_ob = 0
+    for f in sorted(prog.functions.values(), key=lambda f: f['qn']):
+        if 'body' not in f:
+            continue
+        mm = re.match(r'^embedded_pairing::bls12_381::WnafScalar<(\d+), (\d+)U?>::from_bigint$', f['qn'])
+        if not mm:
+            continue
+        bits, w = int(mm.group(1)), int(mm.group(2))
+        nw = bits // wordbits
+        loop = _find_stmt(f['body'], 'while') or _find_stmt(f['body'], 'do')
+        if loop is None:
+            raise bm.AnalysisBroken('%s: recoding loop not found' % f['qn'])
+        name = 'WnafScalar<%d,%d>::from_bigint' % (bits, w)
+        msgs = []
+        try:
+            m = CppMachine(prog, wordbits, {'S': nw, 'THIS': 0})
+            m.big_summaries = True
+            m.scalars = {'THIS'}
+            m.topdown_splits = True
+            m.infer = True
+            m.junk_locals = True
+            rec = prog.records.get(f.get('parent') or f['qn'].rsplit('::', 1)[0]) or {}
+            st = St(Path(), [Frame(f, ('THIS', 0))])
+            st.fr.vars[f['params'][0]['id']] = ('obj', 'S', 0)
+            # the statements before the loop
+            pre = []
+            for s in f['body']['body']:
+                if s is loop:
+                    break
+                pre.append(s)
+            sts = [st]
+            for s in pre:
+                nxt = []
+                for x in sts:
+                    nxt += m.exec(x, s)
+                sts = nxt
+            if len(sts) != 1:
+                raise Unsupported('the statements before the loop fork')
+            st = sts[0]
+            # locals: c and a (BigInt objects), i (index)
+            objs = {}
+            ivar = None
+            for s in pre:
+                if s.get('k') == 'decl':
+                    for v in s['vars']:
+                        cur = st.fr.vars.get(v['id'])
+                        if isinstance(cur, tuple) and cur[0] == 'obj':
+                            objs[v['name']] = cur[1]
+                        elif (v.get('t') or {}).get('k') == 'int' and isinstance(cur, ZPoly) and cur.is_zero():
+                            ivar = v
+            if 'c' not in objs or 'a' not in objs or ivar is None:
+                raise Unsupported('locals c / a / i not identified')
+            S = bigw(m, words_of(m, 'S', nw))
+            C0 = sum((m.rd_word(st, objs['c'], i * m.wb) * (m.W ** i) for i in range(nw)), ZPoly())
+            A0 = sum((m.rd_word(st, objs['a'], i * m.wb) * (m.W ** i) for i in range(nw)), ZPoly())
+            if not (C0 - S).is_zero() or not A0.is_zero():
+                msgs.append('before the loop c is not the scalar / a is not zero')
+            # arbitrary loop state
+            m.inputs['CC'] = nw
+            cw = words_of(m, 'CC', nw)
+            for i in range(nw):
+                st.p.mem[(objs['c'], i * m.wb)] = cw[i]
+                st.p.mem[(objs['a'], i * m.wb)] = ZERO
+            ab = m.world.input('AB')
+            m.world.atoms['AB']['hi'] = 255
+            st.p.mem[(objs['a'], 0)] = ab
+            I0 = 7
+            st.fr.vars[ivar['id']] = ZPoly.const(I0)
+            Cold = bigw(m, cw)
+            finals = m.exec(st, loop['body'])
+        except Unsupported as e:
+            raise bm.AnalysisBroken('R-WORDALG/c++ cannot model %s: %s' % (f['qn'], e))
+        wn = [x for x in (rec.get('fields') or []) if x['name'] == 'wnaf']
+        woff = wn[0]['off'] if wn else 0
+        for s2 in finals:
+            sub = {a: ZPoly.const(v) for a, v in s2.p.bits.items()}
+            path = '[' + '; '.join(s2.p.trace[-5:]) + ']'
+            iv = s2.fr.vars.get(ivar['id'])
+            if not (isinstance(iv, ZPoly) and iv == ZPoly.const(I0 + 1)):
+                msgs.append('on the path %s the digit index is not advanced by exactly one' % path)
+                continue
+            u = s2.p.mem.get(('THIS', woff + I0))
+            if u is None:
+                msgs.append('on the path %s no digit is stored at wnaf[i]' % path)
+                continue
+            Cn = sum((m.rd_word(s2, objs['c'], i * m.wb) * (m.W ** i) for i in range(nw)), ZPoly())
+            D = path_normal(m, s2, u + Cn * 2 - Cold)
+            if not D.is_zero():
+                msgs.append('on the path %s  u + 2*c_new - c_old  is not zero: %r' % (path, D))
+            ulo, uhi = m.rng(u.subs(sub))
+            for r_ in s2.p.rels:
+                if len(r_) == 3 and r_[1].is_const():
+                    d = u - r_[0]
+                    if d.is_const():
+                        y, dv = r_[1].const_value(), d.const_value()
+                        if 'gt' not in r_[2]:
+                            uhi = min(uhi, (y if 'eq' in r_[2] else y - 1) + dv)
+                        if 'lt' not in r_[2]:
+                            ulo = max(ulo, (y if 'eq' in r_[2] else y + 1) + dv)
+            lim = (1 << w)
+            okmag = -lim <= ulo and uhi <= lim
+            if okmag:
+                # u == +-2^w is excluded by parity: u is odd (or zero on the even path)
+                ue = u.subs(sub)
+                for bound in (lim, -lim):
+                    if ulo <= bound <= uhi:
+                        dd = ue - bound
+                        cs = [c for m_, c in dd.t.items() if m_ != ()]
+                        import math
+                        g = 0
+                        for c in cs:
+                            g = math.gcd(g, abs(c))
+                        if not (g > 1 and dd.t.get((), 0) % g != 0) and not dd.is_const():
+                            okmag = False
+                        if dd.is_const() and dd.const_value() == 0:
+                            okmag = False
+            if not okmag:
+                msgs.append('on the path %s the digit can reach magnitude 2^%d (range [%d, %d]): the table index |u| >> 1 leaves the 2^%d entries' % (path, w, ulo, uhi, w - 1))
+            An = [m.rd_word(s2, objs['a'], i * m.wb) for i in range(nw)]
+            if any(not x.subs(sub).is_zero() for x in An[1:]) or m.rng(An[0].subs(sub))[1] > 255 or m.rng(An[0].subs(sub))[0] < 0:
+                msgs.append('on the path %s the addend a does not stay a single byte' % path)
+        n_ob += 1
+        ctx.ob(rule, not msgs and bool(finals), 'wordalg-c++|%s|step' % name, loc_str(f), '%s: %s' % (name, ' ;; '.join(x[:500] for x in msgs[:2])), cfg=cfg,
+               sample=dict(config=cfg, routine=name, paths=len(finals), specification='one loop iteration: c_old == u + 2 c_new, |u| <= 2^w - 1, digit stored at wnaf[i], i advanced'))
+    return n_ob
